@@ -120,6 +120,10 @@ def grid_jobs(tier):
         for st in ("2025-01-06T00:00:00", "2025-01-06T00:07:00", "2025-01-06T09:30:00"):
             for ln in (0, r * 60 - 1, r * 60, r * 60 + 1, 26 * 3600, 8 * 86400):
                 windows.append((r, st, ln))
+    # long windows at fine resolutions: elapsed seconds beyond 2^24 (single-precision floats lose whole seconds there)
+    for r, years in ((1, 3), (5, 3), (15, 3), (30, 5), (60, 10)):
+        for st in ("2025-01-06T00:00:00", "2025-01-06T00:07:00"):
+            windows.append((r, st, years * 365 * 86400 + 3600))
     for a in range(0, len(windows), 30):
         jobs.append(("conv%d" % a, {"kind": "conv", "windows": windows[a: a + 30], "with_tree": a == 0}))
     maxlen = 8 if q else 11
